@@ -31,7 +31,9 @@ RULE = (
     "generated (16-octet group key, source 1..65535, group destination 1..65535, TPCI {T_Data_Group, T_Data_Tag_Group}, sequence "
     "number 1..2^48-1 biased to boundaries, receiver's last valid sequence number below it, algorithm {A+C, authentication only}, "
     "payload {GroupValueWrite/Response with 0..238 data octets, 6-bit value, one instance of every APCI service class}, priority, "
-    "repeat, ack, hop count); plus every plain APDU length 2..240 x both algorithms enumerated once. Every case is non-trivial "
+    "repeat, ack, hop count); plus every plain APDU length 2..240 x both algorithms enumerated once. Every frame is additionally "
+    "replayed as a short history on ONE receiver: two bit-damaged copies and a copy forged with another key under a higher sequence "
+    "number first (all must be discarded), then the intact frame (must be delivered once, unchanged). Every case is non-trivial "
     "(distinct by input); frames whose secured NPDU exceeds 254 octets are outside the domain."
 )
 ASSUMPTIONS = [
@@ -186,6 +188,54 @@ def oracle(ctx, spec) -> None:
         ctx.fail("C15:addresses-or-tpci-differ", spec, f"{tg}")
     if xknx.connection_manager.undecoded_data_secure != 0:
         ctx.fail("C15:counted-undecoded", spec, "delivered but undecoded_data_secure was incremented")
+    history_after_damaged_copies(ctx, spec, raw, plain, apdu)
+
+
+def history_after_damaged_copies(ctx, spec, raw: bytes, plain, apdu: bytes) -> None:
+    """The SAME receiver first sees copies of the frame that cannot be authentic (one flipped bit in the secured
+    APDU / MAC; a frame forged with another key under a HIGHER sequence number), then the intact frame: the intact
+    frame - never seen before by this receiver, from a known sender, right key - must still be accepted exactly once."""
+    xknx, rec = make_receiver(spec)
+    b = 2 + raw[1]
+    n_sec_bits = 8 * (len(raw) - (b + 16))  # secured APDU + MAC
+    pick = (spec["seq"] * 2654435761 + len(raw)) % n_sec_bits
+    damaged = [("bit-in-sapdu-or-mac", L.flip_bit(raw, 8 * (b + 16) + pick)), ("bit-in-last-mac-octet", L.flip_bit(raw, 8 * len(raw) - 1 - spec["seq"] % 8))]
+    if spec["seq"] < S.SEQ_MAX:
+        wrong_key = bytes(x ^ 0x5A for x in bytes(spec["key"]))
+        higher = min(S.SEQ_MAX, spec["seq"] + 1 + spec["seq"] % 1000)
+        try:
+            damaged.append(("forged-higher-seq-wrong-key", secure_frame({**spec, "key": wrong_key, "seq": higher})[0]))
+        except Exception:  # noqa: BLE001 - sender problems are reported by the main oracle
+            pass
+    ctx.classes["history:damaged-then-intact"] += 1
+    for what, bad in damaged:
+        try:
+            xknx.cemi_handler.handle_raw_cemi(bad)
+        except Exception as e:  # noqa: BLE001
+            ctx.fail(f"C15:receiver-exc:{exc_site(e)}", spec, f"handle_raw_cemi raised {type(e).__name__}: {e} on a damaged copy ({what})")
+            return
+        got = delivered(xknx, rec)
+        if got:
+            ctx.fail(f"C15:damaged-copy-delivered:{what}", spec, f"{what}: {bad.hex()} delivered {got[0]} (tampering is C16's subject; reported here because it was observed)")
+            return
+    try:
+        xknx.cemi_handler.handle_raw_cemi(raw)
+    except Exception as e:  # noqa: BLE001
+        ctx.fail(f"C15:receiver-exc:{exc_site(e)}", spec, f"handle_raw_cemi raised {type(e).__name__}: {e} on the intact frame after damaged copies")
+        return
+    got = delivered(xknx, rec)
+    if len(got) != 1:
+        ctx.fail(
+            f"C15:not-delivered-after-damaged-copy:{spec['alg']}" if not got else "C15:delivered-more-than-once",
+            spec,
+            f"{len(got)} telegrams delivered for the intact frame {raw.hex()} after {[w for w, _ in damaged]} had been discarded by the same receiver "
+            f"(receiver's last valid sequence number of the sender is now "
+            f"{xknx.cemi_handler.data_secure._individual_address_table.get(IndividualAddress(spec['src']))}, frame has {spec['seq']})",  # noqa: SLF001
+        )
+        return
+    tg = got[0]
+    if tg.payload != plain.payload or bytes(tg.payload.to_knx()) != apdu or tg.data_secure is not True:
+        ctx.fail(f"C15:payload-differs-after-damaged-copy:{type(plain.payload).__name__}", spec, f"sent {plain.payload} received {tg.payload} data_secure={tg.data_secure}")
 
 
 def specs():
